@@ -13,8 +13,9 @@ MANIFEST = {
             'values in [0,256^r), with r bytes per value; out-of-range values are rejected; byte_length(q) >= 1 and '
             'q <= 256^byte_length(q) for every order q >= 1, hence every list of reduced values of any field round-trips; '
             'signed_ v is congruent to v mod p with -p/2 < signed_ v <= p/2, unsigned_ v = v, int() converts back to the '
-            'element. The model is compared exactly with the real classmethods on every run (list lengths 0..40, all '
-            'field kinds for the byte functions; prime fields for the signed views).',
+            'element. The model is compared exactly with the real classmethods on every run (list lengths 0..40 for five '
+            'fields, ten lengths in 0..40 for the other 30, all field kinds for the byte functions; prime fields for the '
+            'signed views); the implementation oracle runs lengths 0..40 on all 35 fields.',
     'note': 'bytes/int.to_bytes/int.from_bytes of CPython are modelled (little-endian digits base 256), not verified. '
             'For extension/binary fields the byte functions act on the integer image of the polynomial value '
             '(gfpx _to_int/_from_int, not modelled in Coq here): covered by the implementation oracle F(from_bytes(to_bytes)) '
@@ -66,6 +67,7 @@ def run(ctx):
         r = F.byte_length
         lens = list(range(0, 41))
         b_vs, b_data, b_back, b_fb, b_fbback = [], [], [], [], []
+        full_model = ctx.tier == 'thorough' or name in ('GF(2)', 'GF(257)', 'GF(2^8)', 'GF(3^4)', 'GF(%d)' % p64)
         for n in lens:
             for rep in range(ctx.n(1, 4)):
                 pool = [0, 1, q - 1, q // 2, min(q - 1, 255), min(q - 1, 256), min(q - 1, 65535), rng.randrange(q), rng.randrange(q),
@@ -85,9 +87,10 @@ def run(ctx):
                 if back != vs or [F(b) for b in back] != elems:
                     bad('roundtrip-wrong ' + name, field=name, values=vs, got=back)
                 ctx.case({'f': name, 'vs': vs}, nontrivial=n > 0, kind='%s len' % kind + ('=0' if n == 0 else '<=8' if n <= 8 else '>8'))
-                b_vs.append(vs)
-                b_data.append(list(data))
-                b_back.append(back)
+                if full_model or n in (0, 1, 2, 3, 5, 8, 13, 21, 34, 40):
+                    b_vs.append(vs)
+                    b_data.append(list(data))
+                    b_back.append(back)
         # arbitrary byte strings (decode only), incl. trailing partial chunk
         for rep in range(ctx.n(6, 30)):
             ln = rng.choice([0, 1, r - 1, r, r + 1, 2 * r, 3 * r + 1, rng.randrange(0, 5 * r + 3)])
@@ -179,7 +182,7 @@ def run(ctx):
 
     ctx.log('%d round trips, %d views, %d pickles on the implementation; evaluating %d model expressions' % (nrt, nview, npk, len(exprs)))
     if ok:
-        res = ctx.coq_eval(['MPyC.Serial'], exprs, chunk=300)
+        res = ctx.coq_eval(['MPyC.Serial'], exprs, chunk=10)
         mism = 0
         for r, m in zip(res, meta):
             if isinstance(r, tuple) and r and r[0] == 'ERROR':
